@@ -1,0 +1,27 @@
+package types
+
+import (
+	"bytes"
+	"sort"
+
+	"github.com/gogo/protobuf/proto"
+
+	sdk "github.com/cosmos/cosmos-sdk/types"
+)
+
+// EmitTypedEvent emits a typed event with its attributes sorted by key.
+//
+// sdk.EventManager.EmitTypedEvent (cosmos-sdk v0.45) builds the attribute list
+// by ranging over a map, so the attribute order differs from node to node and
+// from run to run; events emitted by the state machine must be deterministic.
+func EmitTypedEvent(ctx sdk.Context, tev proto.Message) error {
+	event, err := sdk.TypedEventToEvent(tev)
+	if err != nil {
+		return err
+	}
+	sort.SliceStable(event.Attributes, func(i, j int) bool {
+		return bytes.Compare(event.Attributes[i].Key, event.Attributes[j].Key) < 0
+	})
+	ctx.EventManager().EmitEvent(event)
+	return nil
+}
